@@ -42,6 +42,14 @@ pub struct UpstreamQuery {
     pub at_ms: u64,
 }
 
+#[derive(Clone, Debug)]
+pub struct AddressLookup {
+    pub ctx: String,
+    /// `"<name> IN <type>"`
+    pub question: String,
+    pub locally: bool,
+}
+
 /// Per-run fault profile: probability that a site takes a non-benign value,
 /// and numeric parameters (maximum delays and the like).
 #[derive(Clone, Debug, Default)]
@@ -83,6 +91,11 @@ pub struct World {
     /// Full text of the event log, when recording is on.
     pub log_text: Option<Vec<String>>,
     pub trace: Vec<UpstreamQuery>,
+    pub address_lookups: Vec<AddressLookup>,
+    pub address_lookup_count: u64,
+    /// Harness callback run at every upstream-query trace point (it must not
+    /// touch the world: it is called while the world is borrowed).
+    pub on_upstream_query: Option<Box<dyn FnMut(&UpstreamQuery)>>,
     /// Fault-fired counters and rare-branch probes.
     pub stats: BTreeMap<String, u64>,
     pub net: NetState,
@@ -156,6 +169,9 @@ impl World {
             log_count: 0,
             log_text: None,
             trace: Vec::new(),
+            address_lookups: Vec::new(),
+            address_lookup_count: 0,
+            on_upstream_query: None,
             stats: BTreeMap::new(),
             net: NetState::default(),
             fs: FsState::default(),
